@@ -125,9 +125,14 @@ Record deferred := { df_bytes : list N; df_seq : N; df_from : N; df_iin2 : N }.
 
 Inductive unsol_state := UNullRequired | UReady (deadline : option Z).
 
+(* where run_idle_state continues when a solicited series ends: after handle_one_request_from_idle
+   (then unsolicited is checked), or after handle_deferred_read (then the select!, which returns
+   at once when the unsolicited check of that iteration had answered NoSleep) *)
+Inductive resume := RStep2 | RStep4 (nosleep : bool).
+
 Inductive control :=
 | CIdle
-| CSolWait (s : series) (deadline : Z)
+| CSolWait (s : series) (deadline : Z) (r : resume)
 | CUnsolWait (resp : response) (is_null : bool) (retries : option nat) (deadline : Z).
 
 Record ostate := {
@@ -886,7 +891,7 @@ Definition handle_from_idle (cfg : ocfg) (s : ostate) (from : N) (bc : option bc
               let se' := match se with None => if ctl_con (r_ctl r) then Some {| se_ecsn := ctl_seq (r_ctl r); se_fin := true |} else None | x => x end in
               let s2 := upd_last s1 (mk_last seq bytes (Some r) se') in
               match se' with
-              | Some x => (upd_control s2 (CSolWait x (confirm_deadline cfg s2)), o0 ++ o1 ++ o2 ++ [OInfo (IEnterSolWait (se_ecsn x))])
+              | Some x => (upd_control s2 (CSolWait x (confirm_deadline cfg s2) RStep2), o0 ++ o1 ++ o2 ++ [OInfo (IEnterSolWait (se_ecsn x))])
               | None => (s2, o0 ++ o1 ++ o2)
               end
             else
@@ -894,7 +899,7 @@ Definition handle_from_idle (cfg : ocfg) (s : ostate) (from : N) (bc : option bc
               let se' := match se with None => if ctl_con (r_ctl r') then Some {| se_ecsn := ctl_seq (r_ctl r'); se_fin := true |} else None | x => x end in
               let s3 := upd_last s2 (mk_last seq bytes (Some r') se') in
               match se' with
-              | Some x => (upd_control s3 (CSolWait x (confirm_deadline cfg s3)), o0 ++ o1 ++ o2 ++ [OInfo (IEnterSolWait (se_ecsn x))])
+              | Some x => (upd_control s3 (CSolWait x (confirm_deadline cfg s3) RStep2), o0 ++ o1 ++ o2 ++ [OInfo (IEnterSolWait (se_ecsn x))])
               | None => (s3, o0 ++ o1 ++ o2)
               end
         | None => (upd_last s1 (mk_last seq bytes None se), o0 ++ o1)
@@ -957,17 +962,18 @@ Definition any_enabled (s : ostate) : bool := let '(a, b, c) := s_enabled s in a
 (* what the end of an unsolicited series does to the state (check_unsolicited's match arms) *)
 Inductive unsol_result := UrConfirmed | UrTimeout | UrReturnToIdle.
 
-Definition end_unsol (cfg : ocfg) (s : ostate) (is_null : bool) (res : unsol_result) : ostate * list oobs :=
+Definition end_unsol (cfg : ocfg) (s : ostate) (is_null : bool) (res : unsol_result)
+  : ostate * bool (* NoSleep *) * list oobs :=
   let s0 := upd_control s CIdle in
   if is_null then
     match res with
-    | UrConfirmed => (upd_unsol s0 (UReady None), [])
-    | _ => (upd_unsol s0 UNullRequired, [])
+    | UrConfirmed => (upd_unsol s0 (UReady None), true, [])
+    | _ => (upd_unsol s0 UNullRequired, true, [])
     end
   else
     match res with
-    | UrConfirmed => (upd_unsol s0 (UReady None), [ODb DbClearWritten])
-    | _ => (upd_unsol s0 (UReady (Some (s_now s0 + o_retry_delay_ms cfg)%Z)), [ODb DbReset])
+    | UrConfirmed => (upd_unsol s0 (UReady None), true, [ODb DbClearWritten])
+    | _ => (upd_unsol s0 (UReady (Some (s_now s0 + o_retry_delay_ms cfg)%Z)), false, [ODb DbReset])
     end.
 
 (* one fragment while waiting for an unsolicited confirm *)
@@ -1030,7 +1036,7 @@ Definition check_unsolicited (cfg : ocfg) (s : ostate) : ostate * bool (* NoSlee
   end.
 
 (* handle_deferred_read *)
-Definition handle_deferred (cfg : ocfg) (s : ostate) : ostate * list oobs :=
+Definition handle_deferred (cfg : ocfg) (s : ostate) (nosleep : bool) : ostate * list oobs :=
   match s_deferred s with
   | None => (s, [])
   | Some d =>
@@ -1040,59 +1046,86 @@ Definition handle_deferred (cfg : ocfg) (s : ostate) : ostate * list oobs :=
       let se' := match se with None => if ctl_con (r_ctl r') then Some {| se_ecsn := ctl_seq (r_ctl r'); se_fin := true |} else None | x => x end in
       let s4 := upd_last s3 (mk_last (df_seq d) (df_bytes d) (Some r') se) in
       match se' with
-      | Some x => (upd_control s4 (CSolWait x (confirm_deadline cfg s4)), o1 ++ o2 ++ o3 ++ [OInfo (IEnterSolWait (se_ecsn x))])
+      | Some x => (upd_control s4 (CSolWait x (confirm_deadline cfg s4) (RStep4 nosleep)), o1 ++ o2 ++ o3 ++ [OInfo (IEnterSolWait (se_ecsn x))])
       | None => (s4, o1 ++ o2 ++ o3)
       end
   end.
 
-(* run_idle_state iterations until the session blocks *)
-Fixpoint idle_loop (fuel : nat) (cfg : ocfg) (s : ostate) : ostate * list oobs :=
+(* run_idle_state, entered at one of its four stages, iterated until the session blocks *)
+Inductive stage := St1 | St2 | St3 (nosleep : bool) | St4 (nosleep : bool).
+
+Fixpoint idle_run (fuel : nat) (cfg : ocfg) (st : stage) (s : ostate) : ostate * list oobs :=
   match fuel with
   | O => (s, [OOutOfFuel])
   | S f =>
-      (* 1. a fragment waiting in the reader *)
-      let '(s1, o1) := match s_pending s with
-                       | Some (from, bc, bytes, d, fid) => handle_from_idle cfg (upd_pending s None) from bc bytes d fid
-                       | None => (s, [])
-                       end in
-      match s_control s1 with
-      | CIdle =>
-          (* 2. unsolicited *)
-          let was := s_unsol s1 in
-          let '(s2, _, o2) := check_unsolicited cfg s1 in
-          match s_control s2 with
-          | CIdle =>
-              (* 3. deferred read *)
-              let '(s3, o3) := handle_deferred cfg s2 in
-              match s_control s3 with
-              | CIdle =>
-                  (* 4. select!: a stored database permit wakes the loop once more *)
-                  if s_notify s3 then
-                    let '(s4, o4) := idle_loop f cfg (upd_notify s3 false) in (s4, o1 ++ o2 ++ o3 ++ o4)
-                  else (s3, o1 ++ o2 ++ o3)
-              | _ => (s3, o1 ++ o2 ++ o3)
-              end
-          | _ => (s2, o1 ++ o2)
+      match st with
+      | St1 =>
+          (* 1. a fragment waiting in the reader *)
+          let '(s1, o1) := match s_pending s with
+                           | Some (from, bc, bytes, d, fid) => handle_from_idle cfg (upd_pending s None) from bc bytes d fid
+                           | None => (s, [])
+                           end in
+          match s_control s1 with
+          | CIdle => let '(s2, o2) := idle_run f cfg St2 s1 in (s2, o1 ++ o2)
+          | _ => (s1, o1)
           end
-      | _ => (s1, o1)
+      | St2 =>
+          (* 2. unsolicited: starting a series blocks; otherwise the answer is never NoSleep *)
+          let '(s2, _, o2) := check_unsolicited cfg s in
+          match s_control s2 with
+          | CIdle => let '(s3, o3) := idle_run f cfg (St3 false) s2 in (s3, o2 ++ o3)
+          | CUnsolWait resp is_null _ _ =>
+              (* a fragment retained by an aborted solicited series is read at once in the wait *)
+              match s_pending s2 with
+              | None => (s2, o2)
+              | Some (from, bc, bytes, d, fid) =>
+                  let '(s3, res, o3) := unsol_wait_fragment cfg (upd_pending s2 None) resp from bc bytes d fid in
+                  match res with
+                  | None => (s3, o2 ++ o3)
+                  | Some r =>
+                      let '(s4, ns, o4) := end_unsol cfg s3 is_null r in
+                      let '(s5, o5) := idle_run f cfg (St3 ns) s4 in
+                      (s5, o2 ++ o3 ++ o4 ++ o5)
+                  end
+              end
+          | _ => (s2, o2)
+          end
+      | St3 ns =>
+          (* 3. deferred read *)
+          let '(s3, o3) := handle_deferred cfg s ns in
+          match s_control s3 with
+          | CIdle => let '(s4, o4) := idle_run f cfg (St4 ns) s3 in (s4, o3 ++ o4)
+          | _ => (s3, o3)
+          end
+      | St4 ns =>
+          (* 4. select!: returns at once on NoSleep, or when the database holds a wake-up permit *)
+          match s_pending s with
+          | Some _ => idle_run f cfg St1 s          (* the reader holds a fragment *)
+          | None =>
+              if ns then idle_run f cfg St1 s
+              else if s_notify s then idle_run f cfg St1 (upd_notify s false)
+              else (s, [])
+          end
       end
   end.
 
-(* after a series ended: back to the idle loop; NoSleep results of check_unsolicited are the
-   re-entries modelled here *)
-Definition resume_idle (cfg : ocfg) (s : ostate) : ostate * list oobs := idle_loop 8 cfg s.
+Definition idle_loop (fuel : nat) (cfg : ocfg) (s : ostate) : ostate * list oobs := idle_run (4 * fuel) cfg St1 s.
+
+Definition resume_at (cfg : ocfg) (st : stage) (s : ostate) : ostate * list oobs := idle_run 32 cfg st s.
+
+Definition stage_of (r : resume) : stage := match r with RStep2 => St2 | RStep4 ns => St4 ns end.
 
 (* ---------- time ------------------------------------------------------------------------------------ *)
 
 (* the earliest armed deadline *)
 Definition next_deadline (cfg : ocfg) (s : ostate) : option Z :=
   match s_control s with
-  | CSolWait _ d => Some d
+  | CSolWait _ d _ => Some d
   | CUnsolWait _ _ _ d => Some d
   | CIdle =>
       if negb (o_unsol cfg) then None
       else match s_unsol s with
-           | UReady (Some t) => Some t
+           | UReady (Some t) => if (s_now s <? t)%Z then Some t else None   (* a passed deadline arms no timer *)
            | _ => None
            end
   end.
@@ -1100,8 +1133,8 @@ Definition next_deadline (cfg : ocfg) (s : ostate) : option Z :=
 (* a deadline fires *)
 Definition fire_deadline (cfg : ocfg) (s : ostate) : ostate * list oobs :=
   match s_control s with
-  | CSolWait se _ =>
-      let '(s1, o) := resume_idle cfg (upd_control s CIdle) in
+  | CSolWait se _ r =>
+      let '(s1, o) := resume_at cfg (stage_of r) (upd_control s CIdle) in
       (s1, [OInfo (ISolTimeout (se_ecsn se)); ODb DbReset] ++ o)
   | CUnsolWait resp is_null retries _ =>
       let can_retry := match retries with None => true | Some O => false | Some (S _) => true end in
@@ -1112,10 +1145,10 @@ Definition fire_deadline (cfg : ocfg) (s : ostate) : ostate * list oobs :=
         (upd_control s (CUnsolWait resp is_null retries' (confirm_deadline cfg s)),
          o0 ++ repeat_unsolicited cfg s resp)
       else
-        let '(s1, o1) := end_unsol cfg s is_null UrTimeout in
-        let '(s2, o2) := resume_idle cfg s1 in
+        let '(s1, ns, o1) := end_unsol cfg s is_null UrTimeout in
+        let '(s2, o2) := resume_at cfg (St3 ns) s1 in
         (s2, o0 ++ o1 ++ o2)
-  | CIdle => resume_idle cfg s
+  | CIdle => resume_at cfg St1 s
   end.
 
 Fixpoint advance (fuel : nat) (cfg : ocfg) (s : ostate) (target : Z) : ostate * list oobs :=
@@ -1142,40 +1175,42 @@ Definition on_rx (cfg : ocfg) (s : ostate) (from : N) (bc : option bcast_mode) (
   let s0 := upd_frame_id s fid in
   match s_control s0 with
   | CIdle => idle_loop 8 cfg (upd_pending s0 (Some (from, bc, bytes, d, fid)))
-  | CSolWait se deadline =>
+  | CSolWait se deadline r =>
       match sol_wait_fragment cfg s0 se deadline from bc bytes d with
-      | (SoStay dl, o) => (upd_control s0 (CSolWait se dl), o)
+      | (SoStay dl, o) => (upd_control s0 (CSolWait se dl r), o)
       | (SoConfirmed respond_to, o) =>
           let s1 := upd_last_bcast s0 None in
           let o1 := [ODb DbClearWritten] in
           if se_fin se then
-            let '(s2, o2) := resume_idle cfg (upd_control s1 CIdle) in (s2, o ++ o1 ++ o2)
+            let '(s2, o2) := resume_at cfg (stage_of r) (upd_control s1 CIdle) in (s2, o ++ o1 ++ o2)
           else
             let ecsn := seq16_next (se_ecsn se) in
-            let '(s2, r, next, o2) := format_read_response s1 false ecsn 0 in
-            let '(s3, r', o3) := write_solicited s2 respond_to r in
+            let '(s2, rsp, next, o2) := format_read_response s1 false ecsn 0 in
+            let '(s3, rsp', o3) := write_solicited s2 respond_to rsp in
             let s4 := upd_last s3 (match s_last s3 with
                                    | Some l => Some {| lr_seq := lr_seq l; lr_bytes := lr_bytes l;
-                                                       lr_response := Some r'; lr_series := lr_series l |}
+                                                       lr_response := Some rsp'; lr_series := lr_series l |}
                                    | None => None
                                    end) in
             match next with
-            | Some n => (upd_control s4 (CSolWait n (confirm_deadline cfg s4)), o ++ o1 ++ o2 ++ o3)
+            | Some n => (upd_control s4 (CSolWait n (confirm_deadline cfg s4) r), o ++ o1 ++ o2 ++ o3)
             | None =>
-                let '(s5, o5) := resume_idle cfg (upd_control s4 CIdle) in (s5, o ++ o1 ++ o2 ++ o3 ++ o5)
+                let '(s5, o5) := resume_at cfg (stage_of r) (upd_control s4 CIdle) in (s5, o ++ o1 ++ o2 ++ o3 ++ o5)
             end
       | (SoNewRequest, o) =>
-          (* the fragment is retained and processed from idle *)
-          let '(s1, o1) := idle_loop 8 cfg (upd_pending (upd_control s0 CIdle) (Some (from, bc, bytes, d, fid))) in
-          (s1, o ++ [ODb DbReset] ++ o1)
+          (* the fragment is retained: the series is aborted, run_idle_state goes on, and the next
+             iteration processes the fragment from idle *)
+          let s1 := upd_pending (upd_control s0 CIdle) (Some (from, bc, bytes, d, fid)) in
+          let '(s2, o2) := resume_at cfg (stage_of r) s1 in
+          (s2, o ++ [ODb DbReset] ++ o2)
       end
   | CUnsolWait resp is_null retries deadline =>
       let '(s1, res, o) := unsol_wait_fragment cfg s0 resp from bc bytes d fid in
       match res with
       | None => (s1, o)
       | Some r =>
-          let '(s2, o2) := end_unsol cfg s1 is_null r in
-          let '(s3, o3) := resume_idle cfg s2 in
+          let '(s2, ns, o2) := end_unsol cfg s1 is_null r in
+          let '(s3, o3) := resume_at cfg (St3 ns) s2 in
           (s3, o ++ o2 ++ o3)
       end
   end.
